@@ -891,6 +891,7 @@ func runC18(r *engine.Run) {
 	{
 		n := manyHistoryN(r)
 		r.Rule += fmt.Sprintf(" Many-keys history: %d steps, each the five TS005 derivations under a key not used before in the process, returning to earlier keys every 64th step.", n)
+		r.Rule += collidingRule()
 		r.PartWorkers("multicast-keys/many-keys", []string{fmt.Sprintf("distinct keys:%d", n), "derivation:5"}, 1, 1, func(c *engine.Case) {
 			ok := manyHistoryRun(n, func(i int) bool {
 				c.Eval()
